@@ -16,7 +16,7 @@ CRATES = ['jj-lib', 'jj-core']
 NATIVE = 'c20'
 KANI = ['c20_common_hex_len_3']
 BOUNDS = {
-    'quick': 'IdIndex<CommitId, u32, 4> over 1..3 ids of 5 bytes (3-byte shared concrete prefix + 2 symbolic bytes each, ids pairwise distinct), shortest_unique_prefix_len of every inserted id and resolution of its shortest prefix and of the prefix one digit shorter; resolution of an arbitrary prefix of 7..10 hex digits',
+    'quick': 'IdIndex<CommitId, u32, 4> over 1..3 ids of 5 bytes (3-byte shared concrete prefix + 2 symbolic bytes each, ids pairwise distinct), shortest_unique_prefix_len of every inserted id and resolution of its shortest prefix and of the prefix one digit shorter; resolution of an arbitrary prefix of 7..10 hex digits; the same for 1..3 ids of 4 bytes (2-byte shared prefix + 2 symbolic bytes) and arbitrary prefixes of 5..8 digits',
     'thorough': '1..4 ids; arbitrary prefixes of 1..10 digits',
 }
 ASSUMPTIONS = [
@@ -34,12 +34,17 @@ def jobs(tier):
         out.append(dict(name=f'shortest-n{n}', what='shortest', n=n, rung=0 if n <= 2 else n, weight=10 ** n, split=('enumerate', 8) if n >= 3 else None))
         for d in ((7, 8, 9, 10) if tier == 'quick' else range(1, 11)):
             out.append(dict(name=f'resolve-n{n}-d{d}', what='resolve', n=n, d=d, rung=0 if n <= 2 else n, weight=10 ** n, split=('enumerate', 8) if n >= 3 else None))
+    # 4-byte ids with a 2-byte shared prefix: the digits 5..8 of ids and of the queried prefix are all symbolic, so neighbouring
+    # short keys differ in the byte BEFORE the last (odd) digit of the prefix (range arithmetic on the short keys)
+    for n in (1, 2, 3):
+        for d in (5, 6, 7, 8):
+            out.append(dict(name=f'resolve4-n{n}-d{d}', what='resolve', n=n, d=d, pl=2, L=4, rung=0 if n <= 2 else n, weight=10 ** n, split=('enumerate', 8) if n >= 3 else None))
     return out
 
 def run_job(ix, job, tier):
-    n = job['n']
-    ids = [PFX + [byte(f'id{i}_3'), byte(f'id{i}_4')] for i in range(n)]
-    distinct = zand([z3.Or(a[3] != b[3], a[4] != b[4]) for a, b in itertools.combinations(ids, 2)])
+    n = job['n']; pl = job.get('pl', 3); L_ = job.get('L', 5)
+    ids = [PFX[:pl] + [byte(f'id{i}_{j}') for j in range(pl, L_)] for i in range(n)]
+    distinct = zand([zor([a[j] != b[j] for j in range(pl, L_)]) for a, b in itertools.combinations(ids, 2)])
     builder_fn = ix.find_method(F, 'IdIndex', 'with_capacity'); insert_fn = ix.find_method(F, 'IdIndexBuilder', 'insert'); build_fn = ix.find_method(F, 'IdIndexBuilder', 'build')
     shortest_fn = ix.find_method(F, 'IdIndex', 'shortest_unique_prefix_len'); resolve_fn = ix.find_method(F, 'IdIndex', 'resolve_prefix_to_key')
     TA = ['CommitId', 'u32', '4']
@@ -99,7 +104,7 @@ def run_job(ix, job, tier):
             inp = dict(op='shortest', ids=[[mval(m, x) for x in b] for b in ids])
             return dict(input=inp, expect=None if k != 'ok' else [o[0] for o in out])
         return explore_job(ix, job['name'], run, obligations, overrides=over, pre=distinct, witness=witness, deadline=job.get('deadline'), split=job.get('split'))
-    d = job['d']; q = PFX + [byte('q3'), byte('q4')]
+    d = job['d']; q = PFX[:pl] + [byte(f'q{j}') for j in range(pl, L_)]
     def run(e):
         idx = build(e); return resolve(e, idx, q, d)
     def obligations(k, res, pc, e):
